@@ -5,14 +5,14 @@ CUR_ROOTS = ['_ZN8Pistache12StreamCursor7advanceEm', '_ZNK8Pistache12StreamCurso
   '_ZN8Pistache9match_rawEPKvmRNS_12StreamCursorE', '_ZN8Pistache12match_stringEPKcmRNS_12StreamCursorENS_15CaseSensitivityE',
   '_ZN8Pistache13match_literalEcRNS_12StreamCursorENS_15CaseSensitivityE',
   '_ZN8Pistache11match_untilESt16initializer_listIcERNS_12StreamCursorENS_15CaseSensitivityE',
-  '_ZN8Pistache12match_doubleEPdRNS_12StreamCursorE', '_ZN8Pistache16skip_whitespacesERNS_12StreamCursorE']
+  '_ZN8Pistache12match_doubleEPdRNS_12StreamCursorE', '_ZN8Pistache12StreamCursor5resetEv', '_ZN8Pistache16skip_whitespacesERNS_12StreamCursorE']
 UNITS = {
   'cursor': dict(src=STREAM, mode='inl', roots=CUR_ROOTS),
 }
 REAL = dict(real=[STREAM])
 HARNESSES = []
 for h, d in [('EOL', 'eol() true iff CR LF both delivered; no read beyond the delivered bytes'), ('NEXT', 'next() never reads beyond the delivered bytes'),
-             ('ADVANCE', 'advance(count) exact'), ('BASIC', 'eof/remaining/current'), ('RAW', 'match_raw'), ('STRING', 'match_string, both case modes'),
+             ('ADVANCE', 'advance(count) exact'), ('BASIC', 'eof/remaining/current/offset/diff'), ('RESET', 'StreamCursor::reset'), ('RAW', 'match_raw'), ('STRING', 'match_string, both case modes'),
              ('LITERAL', 'match_literal'), ('UNTIL', 'match_until (1-2 delimiters)'), ('SKIPWS', 'skip_whitespaces'), ('DOUBLE', 'match_double inside a CRLF-terminated value: strtod scanner stays inside the buffer')]:
     HARNESSES.append(dict(name='cursor_' + h.lower(), units=['cursor'], file='c03_cursor.c', defs={'H_' + h: None, 'N': 6}, unwind=9,
         thorough=dict(defs={'H_' + h: None, 'N': 12}, unwind=15),
